@@ -976,4 +976,12 @@ def r5_7(ctx):
     ctx.floor(n, 2, "span-list hand-overs / negative slices")
 
 
-RULES = [r5_0, r5_1, r5_2, r5_3, r5_4, r5_5, r5_6, r5_7]
+def r5_8(ctx):
+    from .common import units_check
+    ctx.rule("R5.8", "units in Text's width operations: truncate(max_width) and align(width) measure the text in terminal cells (cell_len) wherever it is compared with or subtracted from the requested width - never by its character count")
+    m = ctx.repo.mod(TEXT_MOD)
+    units_check(ctx, m.fn("Text.truncate"), {"max_width"}, floor=2)
+    units_check(ctx, m.fn("Text.align"), {"width"}, floor=1)
+
+
+RULES = [r5_0, r5_1, r5_2, r5_3, r5_4, r5_5, r5_6, r5_7, r5_8]
